@@ -79,7 +79,9 @@ Definition window (lay : F.layout) (t : Z) : Z * Z :=
 Definition window_query (lay : F.layout) (t : Z) (w b : list (Z * list Z)) (ex : list (Z * Z)) : F.query :=
   F.mkq (fst (window lay t)) (snd (window lay t)) w b ex.
 
-(* timestamp -+ timedelta leaves datetime: OverflowError *)
+(* timestamp -+ timedelta leaves datetime: OverflowError.  This is find_closest's OWN arithmetic (fileset.py, the two
+   lines quoted above), which is not guarded; find's look-back from the window start (start - P once more) is clamped
+   at datetime.min since /repo bd49e45 (C01: F.dir_start) and raises nothing *)
 Definition window_overflows (lay : F.layout) (t : Z) : bool :=
   match lay with
   | [] => false
@@ -89,7 +91,6 @@ Definition window_overflows (lay : F.layout) (t : Z) : bool :=
 (* find(start, end, sort=False): C01's algorithm without the final sort *)
 Definition find_unsorted (lay : F.layout) (fs : list F.file) (q : F.query) : F.result (list F.file) :=
   if F.qend q - 1 <? F.qstart q then F.Err F.ValueErr
-  else if F.dir_start lay (F.qstart q) <? 0 then F.Err F.OverflowErr
   else F.Ok (filter (F.found false lay q) fs).
 
 Inductive tanswer := TFile (i : nat) | TNone | TErr (e : F.err).
@@ -100,7 +101,6 @@ Definition tree_search (lay : F.layout) (fs : list F.file) (w b : list (Z * list
   let q := window_query lay t w b ex in
   if window_overflows lay t then TErr F.OverflowErr
   else if F.qend q - 1 <? F.qstart q then TErr F.ValueErr
-  else if F.dir_start lay (F.qstart q) <? 0 then TErr F.OverflowErr
   else match gsearch F.t0 F.t1 (F.found false lay q) t fs with
        | Some i => TFile i
        | None => TNone
@@ -123,18 +123,20 @@ Definition tree_closest (lay : F.layout) (fs : list F.file) (exact : option nat)
 
 Definition t2o (a : tanswer) : option nat := match a with TFile i => Some i | _ => None end.
 
-(* hypotheses on the timestamp: the window stays inside datetime and find's look-back (start - P) too *)
+(* hypothesis on the timestamp: the window [t - P, t + P] stays inside datetime (the code computes both ends without
+   a guard).  Nothing is asked about find's look-back from t - P any more: C01's theorems hold for every
+   representable start since the look-back is clamped (before /repo bd49e45 this read t = P \/ 2 P <= t) *)
 Definition window_ok (lay : F.layout) (t : Z) : Prop :=
   valid t /\
   match lay with
   | [] => t <= dt_max - 2
-  | _ => (t = F.lookback lay \/ 2 * F.lookback lay <= t) /\ t + F.lookback lay <= dt_max - 1
+  | _ => F.lookback lay <= t /\ t + F.lookback lay <= dt_max - 1
   end.
 Definition window_okb (lay : F.layout) (t : Z) : bool :=
   validb t &&
   match lay with
   | [] => t <=? dt_max - 2
-  | _ => ((t =? F.lookback lay) || (2 * F.lookback lay <=? t)) && (t + F.lookback lay <=? dt_max - 1)
+  | _ => (F.lookback lay <=? t) && (t + F.lookback lay <=? dt_max - 1)
   end.
 
 (* the brute-force candidate of the property, on the tree: a file whose coverage meets [start, end), that is
